@@ -30,18 +30,38 @@ TIERS = {
 }
 
 # ---- design pass: bounded configurations of Cluster.tla (module, SPECIFICATION, constants) ----
-def mc(module, spec, nodes="MC_NodeSeq", fits="MC_InitFits", strat="MC_Strat", env=0, edit=1, ann=1, agecap=1, per_node=3, tmpls="MC_TmplSeq"):
-    return dict(module=module, spec=spec, nodes=nodes, fits=fits, strat=strat, env=env, edit=edit, ann=ann, agecap=agecap, per_node=per_node, tmpls=tmpls)
+ALL_KINDS = '{"unready", "fail", "restart", "dup", "node"}'
+
+def mc(module, spec, nodes="MC_NodeSeq", fits="MC_InitFits", strat="MC_Strat", env=0, edit=1, ann=1, agecap=1, per_node=3, tmpls="MC_TmplSeq", kinds=ALL_KINDS):
+    return dict(module=module, spec=spec, nodes=nodes, fits=fits, strat=strat, env=env, edit=edit, ann=ann, agecap=agecap, per_node=per_node, tmpls=tmpls, kinds=kinds)
 
 MC_CONFIGS = {
     # name: (config, expected wall time quick machine)
     "rollout_q": mc("MC_rollout", "Spec", env=0, edit=1, ann=1),
-    "rollout_t": mc("MC_rollout", "Spec", env=1, edit=1, ann=1),
+    "rollout_t": mc("MC_rollout", "Spec", env=1, edit=1, ann=0),       # 913 k distinct states, 2.5 min
+    "rollout_t2": mc("MC_rollout", "Spec", env=0, edit=2, ann=1),
     "rollout_mu2_t": mc("MC_rollout", "Spec", strat="MC_Strat2", env=1, edit=1, ann=0),
     "rollout_pct_q": mc("MC_rollout", "Spec", strat="MC_StratPct", env=0, edit=1, ann=0),
     "canary_q": mc("MC_canary", "SpecCanary", env=0, edit=1, ann=1, agecap=2),
-    "canary_t": mc("MC_canary", "SpecCanary", env=1, edit=1, ann=1, agecap=2),
+    "canary_t": mc("MC_canary", "SpecCanary", env=1, edit=1, ann=0, agecap=2),   # 599 k distinct states, 2 min
+    "canary_t2": mc("MC_canary", "SpecCanary", env=0, edit=1, ann=2, agecap=2),
+    "canary_fail_q": mc("MC_canary", "SpecCanary", strat="MC_StratFailFast", env=1, edit=1, ann=0, agecap=2, kinds='{"restart"}'),
+    "canary_fail_t": mc("MC_canary", "SpecCanary", strat="MC_StratFailFast", env=1, edit=1, ann=1, agecap=2),
     "canary_manual_q": mc("MC_canary", "SpecCanary", strat="MC_StratManual", env=0, edit=1, ann=1, agecap=1),
+}
+
+# liveness (design level): (config, SPECIFICATION, temporal property)
+LIVE_CONFIGS = {
+    "live_rollout_q": (mc("MC_rollout", "LiveSpec", env=0, edit=1, ann=0), "L_C02"),
+    "live_rollout_t": (mc("MC_rollout", "LiveSpec", env=1, edit=1, ann=0), "L_C02"),
+    "live_canary_q": (mc("MC_canary", "LiveSpecCanary", env=0, edit=1, ann=0, agecap=2), "L_C02"),
+    "live_canary_t": (mc("MC_canary", "LiveSpecCanary", env=1, edit=1, ann=0, agecap=2), "L_C02"),
+    "live_c07_q": (mc("MC_canary", "LiveSpecCanary", strat="MC_StratFailFast", env=1, edit=1, ann=0, agecap=2, kinds='{"restart"}'), "L_C07"),
+    "live_c07_t": (mc("MC_canary", "LiveSpecCanary", strat="MC_StratFailFast", env=1, edit=1, ann=1, agecap=2, kinds='{"restart", "fail"}'), "L_C07"),
+}
+LIVE = {
+    "C02": {"quick": ["live_rollout_q", "live_canary_q"], "thorough": ["live_rollout_t", "live_canary_t"]},
+    "C07": {"quick": ["live_c07_q"], "thorough": ["live_c07_q", "live_c07_t"]},
 }
 
 # property -> {tier: [(config name, [M_ properties], [invariants])]}
@@ -51,7 +71,7 @@ MC = {
     "C04": {"quick": [("canary_q", ["M_C04"], [])], "thorough": [("canary_t", ["M_C04"], [])]},
     "C05": {"quick": [("canary_q", ["M_C05"], [])], "thorough": [("canary_t", ["M_C05"], []), ("canary_manual_q", ["M_C05"], [])]},
     "C06": {"quick": [("canary_q", ["M_C06"], [])], "thorough": [("canary_t", ["M_C06"], [])]},
-    "C07": {"quick": [("canary_q", ["M_C07"], [])], "thorough": [("canary_t", ["M_C07"], [])]},
+    "C07": {"quick": [("canary_fail_q", ["M_C07"], [])], "thorough": [("canary_fail_t", ["M_C07", "M_C05"], []), ("canary_t", ["M_C07"], [])]},
     "C08": {"quick": [("rollout_q", ["M_C08"], [])], "thorough": [("rollout_t", ["M_C08"], []), ("canary_t", ["M_C08"], [])]},
     "C09": {"quick": [("rollout_q", ["M_C09"], [])], "thorough": [("rollout_t", ["M_C09"], [])]},
     "C13": {"quick": [("rollout_q", ["M_C13"], ["I_C13m"])], "thorough": [("rollout_t", ["M_C13"], ["I_C13m"]), ("canary_t", ["M_C13"], ["I_C13m"])]},
